@@ -1,6 +1,6 @@
 PROPERTY = "C18"
 LEVEL = "proof"
-FUNCTIONS = ["canonicalize_name", "normalize_slashes", "is_filename_sane", "mknode (call site: hard-link target)", "it_next (call site: tar member name)"]
+FUNCTIONS = ["canonicalize_name", "normalize_slashes", "is_filename_sane", "mknode (call site: hard-link target)", "it_next (call site: tar member name)", "get_path of rdsquashfs (call site: command line paths)"]
 TRUSTED = ["CBMC library model of strcmp (used by is_filename_sane)",
            "malloc never returns overlapping objects (CBMC memory model)"]
 ASSUMPTIONS = [
@@ -39,6 +39,8 @@ HARNESSES = [
          label="bounded(headers per call <= 3)", unwind=5, timeout=300,
          nochecks=["--conversion-check"],
          cases=[dict(id="hdr3", defines={"MAX_HDR": 3}, tier="quick")]),
+    dict(name="funnel_rd_getpath", file="funnel_rd_getpath.c", label="proved",
+         timeout=300, native=False, include_dirs=["bin/rdsquashfs/src"]),
     dict(name="sane_iff", file="sane_iff.c", label="bounded(len<=12)",
          timeout=900,
          cases=[dict(id="len%d" % n, defines={"LEN": n}, tier="quick", unwind=n + 3)
